@@ -49,6 +49,7 @@ type qActor struct {
 	pullOK   []bool
 	waitOK   []bool
 	finished chan struct{}
+	early    string
 }
 
 type qRun struct {
@@ -86,7 +87,13 @@ func (r *qRun) actorMain(a *qActor) {
 		case "push":
 			r.q.Push([]byte{byte(op.N)})
 		case "wait":
-			a.waitOK = append(a.waitOK, r.q.WaitUntilSizeIsBelow(r.ctx, op.N))
+			ok := r.q.WaitUntilSizeIsBelow(r.ctx, op.N)
+			a.waitOK = append(a.waitOK, ok)
+			// only the producer adds segments, so the backlog seen right after a successful
+			// wait cannot be larger than at the moment the wait returned
+			if l := r.q.Len(); ok && l > op.N && a.early == "" {
+				a.early = fmt.Sprintf("waitUntilSizeIsBelow(%d) returned while %d segments were still queued", op.N, l)
+			}
 		case "pull":
 			b, ok := r.q.Pull(r.ctx)
 			a.pullOK = append(a.pullOK, ok)
@@ -281,6 +288,9 @@ func runQueueSchedule(sc c20Scenario) (string, []int, int, string) {
 		if !ok && !cancelled {
 			return fmt.Sprintf("waitUntilSizeIsBelow %d returned false without cancellation", i), r.branching, r.preempt, ""
 		}
+	}
+	if prod.early != "" {
+		return "throttled downloader released too early: " + prod.early, r.branching, r.preempt, ""
 	}
 	n := modelLen()
 	for _, a := range r.actors {
